@@ -111,6 +111,9 @@ def generate(prop, seed, tier='quick'):
         op = gen.gen_op(rng, kind, len(pool), opts)
         op.pop('from_key', None)
         op.setdefault('c', rng.randrange(len(pool)))
+        if kind == 'add_pack' and rng.random() < 0.1:
+            op['mass'] = 1000 + rng.randint(0, 60)  # one call crossing the library's 1000-row granularity
+            op['api'] = 'objects'
         pops.append(op)
     actors.append({'name': 'p', 'role': 'packer', 'ops': pops})
     if rng.random() < 0.6:
